@@ -1,16 +1,176 @@
 import Gimli.Lemmas.Index
-import Gimli.Model.Aranges
+import Gimli.Lemmas.Aranges
 /-!
 # C17 — Accelerated lookups and section plumbing agree with exhaustive scans
+
+Property theorems only; helper lemmas are in `Gimli/Lemmas/{Index,Aranges,…}.lean`. Every theorem
+is about the Model functions of `Gimli/Model/{Index,Aranges,Pub,Names}.lean` which the driver
+executes and which the correspondence run ties to `src/read/{index,aranges,lookup,names}.rs`.
+
+Quantifiers: every table size `2^k`, every list of signatures / tuples / names of any length,
+both byte orders, both DWARF formats, every address size.
 -/
 namespace Gimli.Props.C17
 open Gimli Gimli.Ints Gimli.Index Gimli.Spec.Index
 
+/-! ## the package hash index (`.debug_cu_index` / `.debug_tu_index`) -/
+
+/-- **The number-theoretic core**: with an odd stride the probe sequence of a `2^k`-slot table
+visits every slot exactly once in its first `2^k` steps (injective, hence onto). -/
+theorem odd_stride_visits_every_slot (k id : Nat) :
+    (∀ i j, i < 2 ^ k → j < 2 ^ k → probe k id i = probe k id j → i = j) ∧
+    (∀ p, p < 2 ^ k → ∃ i, i < 2 ^ k ∧ probe k id i = p) :=
+  ⟨fun i j hi hj h => probe_inj k (id % 2 ^ k) (stride k id) i j (stride_odd k id) hi hj h,
+   fun p hp => probe_surj' k id p hp⟩
+
+/-- **`find` agrees with the exhaustive scan (main theorem).**  Take any list `kvs` of
+`(signature, row)` pairs with non-zero, pairwise distinct signatures that fits a table of `2^k`
+slots (`kvs.length ≤ 2^k`: every load factor, *including the completely full table*).  Then
+1. inserting them with the standard's double hashing (`Spec.Index.build`) succeeds — this is
+   where "an odd stride visits every slot" is needed — and
+2. for every parsed index `ix` whose `hash_ids`/`hash_rows` arrays hold the resulting slot
+   table (either byte order) and every non-zero `id`: `UnitIndex::find` returns exactly what a
+   linear scan of `kvs` returns; `some row` iff `(id, row)` is listed, `none` iff `id` is absent. -/
+theorem index_find_iff_present (k : Nat) (kvs : List (Nat × Nat))
+    (hnz : ∀ kv, kv ∈ kvs → kv.1 ≠ 0)
+    (hdist : kvs.Pairwise (fun a b => a.1 ≠ b.1))
+    (hroom : kvs.length ≤ 2 ^ k) :
+    ∃ t, build k kvs = some t ∧
+      ∀ (e : Endian) (ix : UnitIndex), Encodes e k t ix → ∀ id, id ≠ 0 →
+        find e ix id = scan kvs id ∧
+        (∀ row, find e ix id = some row ↔ (id, row) ∈ kvs) ∧
+        (find e ix id = none ↔ ∀ row, (id, row) ∉ kvs) := by
+  have hused : used (emptyTable k) = 0 := by
+    unfold emptyTable
+    generalize 2 ^ k = n
+    induction n with
+    | zero => rfl
+    | succ n ih => simp [List.replicate_succ, used, ih]
+  have hempty : ∀ p, slot (emptyTable k) p = (0, 0) := fun p => slot_replicate _ p
+  obtain ⟨t, ht⟩ := buildFrom_succeeds k kvs (emptyTable k) (by simp [emptyTable]) (by omega)
+  refine ⟨t, ht, ?_⟩
+  obtain ⟨hinv, hc⟩ := buildFrom_spec k kvs (emptyTable k) t (inv_empty k) hdist
+    (by intro kv hkv p _; simp only [slotId, hempty]; exact fun h => hnz kv hkv h.symm) ht
+  intro e ix henc id hid
+  have hiff : ∀ row, find e ix id = some row ↔ (id, row) ∈ kvs := by
+    intro row
+    rw [find_eq_lookup e k t ix henc id, lookup_iff k t hinv id hid row, hc id row hid]
+    constructor
+    · rintro (⟨p, _, hp⟩ | hm)
+      · rw [hempty] at hp
+        exact absurd (congrArg Prod.fst hp).symm hid
+      · exact hm
+    · exact fun hm => Or.inr hm
+  refine ⟨?_, hiff, ?_⟩
+  · apply Option.ext
+    intro row
+    rw [hiff row, scan_iff kvs hdist id row]
+  · rw [Option.eq_none_iff_forall_ne_some]
+    constructor
+    · intro h row hm; exact h row ((hiff row).mpr hm)
+    · intro h row hf; exact h row ((hiff row).mp hf)
+
+/-- **`find` terminates within `slot_count` probes for ANY index** — whatever the bytes of the
+hash arrays are (full tables without an empty slot, tables not built by insertion, zero slots,
+slot counts that are not powers of two).  `findN` is `find` together with the number of slots it
+read; the correspondence run compares that number with the reads the real `find` performs. -/
 theorem find_terminates (e : Endian) (ix : UnitIndex) (id : Nat) :
-    (findN e ix id).2 ≤ ix.slotCount := by
+    (findN e ix id).2 ≤ ix.slotCount ∧ find e ix id = (findN e ix id).1 := by
+  refine ⟨?_, rfl⟩
   unfold findN
   split
   · simp
   · exact findLoop_probes_le _ _ _ _ _ _ _
+
+/-- a slot count accepted by `UnitIndex::parse` is 0 or a power of two above the unit count
+(so the table always has an unused slot and the mask arithmetic of `find` is a reduction
+mod `2^k`) -/
+theorem parse_slot_count (e : Endian) (input : Bytes) (ix : UnitIndex)
+    (h : Index.parse e input = .ok ix) :
+    ix.slotCount = 0 ∨ ((∃ k, ix.slotCount = 2 ^ k) ∧ ix.unitCount < ix.slotCount) :=
+  parse_ok_slotCount e input ix h
+
+/-- **Layout of an accepted index**: a 16-byte header, `slot_count` 8-byte signatures,
+`slot_count` 4-byte row numbers, `section_count ≤ 8` column kinds, then the two row-major
+`unit_count × section_count` matrices — these are the arrays `find` and `sections` index into. -/
+theorem index_parse_layout (e : Endian) (input : Bytes) (ix : UnitIndex) (hne : input ≠ [])
+    (h : Index.parse e input = .ok ix) :
+    ∃ hdr kindsB trailing,
+      input = hdr ++ ix.hashIds ++ ix.hashRows ++ kindsB ++ ix.offsets ++ ix.sizes ++ trailing ∧
+      hdr.length = 16 ∧ ix.hashIds.length = ix.slotCount * 8 ∧ ix.hashRows.length = ix.slotCount * 4 ∧
+      kindsB.length = 4 * ix.sectionCount ∧ ix.sections.length = ix.sectionCount ∧
+      ix.sectionCount ≤ 8 ∧ (ix.version = 2 ∨ ix.version = 5) ∧
+      ix.offsets.length = ix.unitCount * ix.sectionCount * 4 ∧
+      ix.sizes.length = ix.unitCount * ix.sectionCount * 4 :=
+  parse_layout e input ix hne h
+
+/-- **`sections(row)` = row `row-1` of the two matrices, column by column.**  If the
+`offsets` and `sizes` arrays of the index are the row-major encodings of two
+`unit_count × section_count` matrices of `u32`s, then for every valid `row` the iterator yields
+exactly `(kind[c], offsets[row-1][c], sizes[row-1][c])` for `c = 0 … section_count-1`. -/
+theorem sections_row_col (e : Endian) (ix : UnitIndex) (offs szs : List (List Nat)) (row : Nat)
+    (hk : ix.sections.length = ix.sectionCount)
+    (hro : offs.length = ix.unitCount) (hrs : szs.length = ix.unitCount)
+    (hco : ∀ r, r ∈ offs → r.length = ix.sectionCount ∧ ∀ v, v ∈ r → v < 2 ^ 32)
+    (hcs : ∀ r, r ∈ szs → r.length = ix.sectionCount ∧ ∀ v, v ∈ r → v < 2 ^ 32)
+    (hoff : ix.offsets = encMatrix e offs) (hsz : ix.sizes = encMatrix e szs)
+    (h1 : 1 ≤ row) (h2 : row ≤ ix.unitCount) :
+    Index.sections e ix row =
+      .ok (ix.sections.zip ((offs.getD (row - 1) []).zip (szs.getD (row - 1) []))) :=
+  sections_matrix e ix offs szs row hk hro hrs hco hcs hoff hsz h1 h2
+
+/-- rows outside `1 ..= unit_count` are rejected -/
+theorem sections_bad_row (e : Endian) (ix : UnitIndex) (row : Nat)
+    (h : row = 0 ∨ ix.unitCount < row) : Index.sections e ix row = .err .rInvalidIndexRow := by
+  unfold Index.sections
+  rw [if_pos h]
+
+/-! ## `.debug_aranges` -/
+
+open Gimli.Aranges in
+/-- **Padding rule.** For every format and every address size (any positive one, in particular
+1, 2, 4, 8): `0 ≤ pad < tuple` and `(header + pad) mod tuple = 0`, where `tuple = 2·address_size`
+and `header` is the header size of the format (12 / 24 bytes). -/
+theorem aranges_padding (f : Format) (addressSize : Nat) (h : 0 < addressSize) :
+    padding f addressSize < 2 * addressSize ∧
+      (headerLength f + padding f addressSize) % (2 * addressSize) = 0 := by
+  unfold padding
+  rw [Nat.mul_comm addressSize 2]
+  exact paddingFor_spec (headerLength f) (2 * addressSize) (by omega)
+
+open Gimli.Aranges in
+/-- … and that is the padding `ArangeHeader::parse` skips: an accepted set is
+`header ++ padding ++ entries`, followed by the next sets; its length field covers exactly that. -/
+theorem aranges_header_layout (e : Endian) (input : Bytes) (h : Header) (rest : Bytes)
+    (hp : parseHeader e input = .ok (h, rest)) :
+    ∃ hdr pad, input = hdr ++ pad ++ h.entries ++ rest ∧
+      hdr.length = headerLength h.format ∧ pad.length = padding h.format h.addressSize ∧
+      (h.addressSize = 1 ∨ h.addressSize = 2 ∨ h.addressSize = 4 ∨ h.addressSize = 8) ∧
+      h.length + initialLengthSize h.format = (hdr ++ pad ++ h.entries).length :=
+  parseHeader_layout e input h rest hp
+
+open Gimli.Aranges in
+/-- **The entry iterator returns exactly the tuples present.**  For every list of tuples `ts`
+(values fitting the address size; any number of null tuples and tombstones anywhere), followed by
+less than a tuple of junk, draining `ArangeEntryIter` yields the linear scan `scanTuples`: one
+item per tuple that is neither null nor a tombstone (`begin ≥ 2^(8·size) − 2`), in order, with
+`end = begin + length`, or `AddressOverflow` where that sum does not fit the address size. -/
+theorem aranges_entries_exact (e : Endian) (addressSize : Nat)
+    (has : addressSize = 1 ∨ addressSize = 2 ∨ addressSize = 4 ∨ addressSize = 8)
+    (ts : List (Nat × Nat)) (tail : Bytes) (htail : tail.length < 2 * addressSize)
+    (hb : ∀ t, t ∈ ts → t.1 < 2 ^ (8 * addressSize) ∧ t.2 < 2 ^ (8 * addressSize))
+    (fuel : Nat) (hf : ts.length < fuel) :
+    entries e addressSize fuel (encTuples e addressSize ts ++ tail) = scanTuples addressSize ts :=
+  entries_tuples e addressSize has tail htail fuel ts
+    (fun t ht => by rw [pow256]; exact hb t ht) hf
+
+/-! ## non-vacuity -/
+
+example : build 2 [(5, 1), (9, 2), (13, 3), (0x100000001, 4)] =
+    some [(0x100000001, 4), (5, 1), (9, 2), (13, 3)] := by decide
+example : Aranges.padding .dwarf32 8 = 4 ∧ Aranges.padding .dwarf64 8 = 8 ∧
+    Aranges.padding .dwarf32 4 = 4 ∧ Aranges.padding .dwarf64 2 = 0 := by decide
+example : Aranges.scanTuples 4 [(0x1000, 0x10), (0, 0), (0xffffffff, 5), (0xfffffff0, 0x20), (7, 1)] =
+    [.item ⟨0x1000, 0x1010, 0x10⟩, .error .rAddressOverflow, .item ⟨7, 8, 1⟩] := by decide
 
 end Gimli.Props.C17
